@@ -43,7 +43,17 @@ func (c *Chan[T]) Recv2() (T, bool) {
 	if !r.ok {
 		return zero, false
 	}
-	return r.raw.(T), true
+	return cast[T](r.raw), true
+}
+
+// cast converts a transported value back; a nil interface value (e.g. a nil
+// error sent on a chan error) has no dynamic type to assert.
+func cast[T any](raw interface{}) T {
+	if raw == nil {
+		var zero T
+		return zero
+	}
+	return raw.(T)
 }
 
 func (c *Chan[T]) Recv() T {
@@ -92,7 +102,7 @@ func (c *Chan[T]) CaseRecv(v *T, ok *bool) Case {
 			var zero T
 			*v = zero
 			if k {
-				*v = raw.(T)
+				*v = cast[T](raw)
 			}
 		}
 		if ok != nil {
